@@ -162,6 +162,7 @@ INT_FUNCS = {
     "cell_to_parent1": lambda a5, s, x, rx: s.cell_to_parent(x),
     "cell_to_children": lambda a5, s, x, rx: s.cell_to_children(x, min(rx + 1, 29)),
     "cell_to_children2": lambda a5, s, x, rx: s.cell_to_children(x, min(rx + 2, 29)),
+    "cell_to_children3": lambda a5, s, x, rx: s.cell_to_children(x, min(rx + 3, 29)),
     "get_resolution": lambda a5, s, x, rx: s.get_resolution(x),
     "uncompact": lambda a5, s, x, rx: importlib.import_module("a5.core.compact").uncompact([x], min(rx + 1, 29)),
     "uncompact2": lambda a5, s, x, rx: importlib.import_module("a5.core.compact").uncompact([x], min(rx + 2, 29)),
@@ -430,8 +431,9 @@ def jobs(tier, seed):
                 js.append(Job("history[%s;%s;%d,%d]" % (f, g, rx, ry), "h_int_history", {"f": f, "g": g, "rx": rx, "ry": ry},
                               {"max_paths": 3000}, weight=2))
     # histories across the 12 -> 5 -> 4 aperture changes and between the one- and two-level variants
-    for f, g in (("cell_to_children", "cell_to_children2"), ("cell_to_children2", "cell_to_children"), ("uncompact2", "uncompact2"),
-                 ("uncompact", "uncompact2"), ("uncompact2", "uncompact"), ("cell_to_children2", "cell_to_children2")):
+    kids = ("cell_to_children", "cell_to_children2", "cell_to_children3")
+    for f, g in [(a, b) for a in kids for b in kids if not (a == b == "cell_to_children")] + \
+            [("uncompact2", "uncompact2"), ("uncompact", "uncompact2"), ("uncompact2", "uncompact")]:
         for rx, ry in ((-1, -1), (0, 0), (0, 2), (2, 0), (-1, 2), (1, 3), (-1, 0), (0, -1)):
             js.append(Job("history[%s;%s;%d,%d]" % (f, g, rx, ry), "h_int_history", {"f": f, "g": g, "rx": rx, "ry": ry},
                           {"max_paths": 3000}, weight=2))
@@ -540,6 +542,7 @@ FUNCS = {
     "cell_to_parent1": lambda x, rx: s.cell_to_parent(x),
     "cell_to_children": lambda x, rx: s.cell_to_children(x, min(rx + 1, 29)),
     "cell_to_children2": lambda x, rx: s.cell_to_children(x, min(rx + 2, 29)),
+    "cell_to_children3": lambda x, rx: s.cell_to_children(x, min(rx + 3, 29)),
     "get_resolution": lambda x, rx: s.get_resolution(x),
     "uncompact": lambda x, rx: a5.uncompact([x], min(rx + 1, 29)),
     "uncompact2": lambda x, rx: a5.uncompact([x], min(rx + 2, 29)),
